@@ -33,14 +33,14 @@ PROPS = {
              probes=["lifecycle_cycle_completed", "repeated_cycle_compared", "builtin_table_grew", "empty_file", "nul_in_file", "line_over_limit", "line_near_limit", "contexts_crossed_160",
                      "spawn_by_directive", "vars_defined", "second_cycle_uses_vars", "find_file_found", "path_component_over_limits", "temp_file_created"]),
     "C09": P(["plain"], 30, 900,
-             "plans = a simulated file tree (root + include files, include chains up to 200 deep, files without magic, missing files) over the line grammar "
+             "plans = a simulated file tree (root + include files, include chains up to 200 deep, files without magic, missing files, empty files, directories and files that open but cannot be read) over the line grammar "
              "comment | blank | begin NAME | end [junk] | %include F | text, nesting depth biased to 9..11, 19..21, 39..41, 79..81, 159..161, 200, 255, 0..200 registered contexts bound to 8 recording handlers, "
              "optional override of the null context, fopen failures and seeded read chunking from the parse op's fault script, parse with and without a search path; "
              "oracle = reference dispatcher producing the exact handler-call trace incl. state tokens, stack balance and index<capacity through read-only accessors; "
              "distinct = distinct trace hash; non-trivial = >= 3 ops",
              probes=["depth_crossed_20", "depth_crossed_40", "depth_crossed_80", "depth_crossed_160", "include_depth_crossed_10", "include_depth_crossed_20", "include_depth_crossed_40",
                      "include_depth_crossed_80", "include_depth_crossed_160", "unknown_context", "surplus_end", "eof_without_newline", "include_open_failed", "contexts_crossed_20",
-                     "contexts_crossed_160", "unbalanced_input"]),
+                     "contexts_crossed_160", "unbalanced_input", "file_opened_but_unreadable", "empty_file"]),
     "C14": P(["asan"], 30, 900,
              "plans = 1..20 URL texts per run (4/5 assembled from component tuples over small alphabets with each optional part present/absent, 1/5 arbitrary byte strings), "
              "one simulated name-service table per run (7 bits: tcp/udp/ip protocols, http/ftp/dns services, a service whose protocol is missing), two stack paints per URL; "
@@ -103,7 +103,7 @@ PROPS = {
                      "mutator_on_empty_state", "dup_of_empty_str"]),
     "C19": P(["plain"], 30, 900,
              "plans = fault-script sweep (all scripts over {FULL,SHORT,EINTR}^<=3 on the first reads and {FULL,SHORT,EINTR,EAGAIN}^<=3 on the first writes x 4 payload sizes) "
-             "followed by seeded lifecycles of 1 server + 1..3 client tasks with per-call fault scripts and seeded schedules; "
+             "followed by seeded lifecycles of 1 server + 1..3 client tasks with per-call fault scripts (socket/bind/listen/connect/accept/read/write/close outcomes), listeners on taken addresses, open retries and seeded schedules; "
              "distinct = distinct trace hash (every simulated call outcome and scheduling decision is hashed); non-trivial = plan has >= 3 operations",
              probes=["sweep_plan", "accept_ok", "send_true", "recv_over_4096", "dup_ok", "open_failed", "accept_failed", "run_ended_blocked", "run_completed"]),
     "T00": P(["asan"], 3, 10, "selftest: random allocator traffic; distinct = distinct trace hash among runs with >= 3 ops"),
